@@ -292,6 +292,11 @@ func Consensus(trees <-chan Trees, cutoff float64) (*Tree, error) {
 		if err = curtree.Tree.ReinitIndexes(); err != nil {
 			return nil, err
 		}
+		// The two branches around the root of a rooted tree define the same bipartition:
+		// we unroot the tree to count it once (UnRoot recomputes the indexes)
+		if curtree.Tree.Rooted() {
+			curtree.Tree.UnRoot()
+		}
 
 		// If the star tree is not initialized, we create it with the tips of the first tree
 		if startree == nil {
